@@ -130,6 +130,7 @@ def apply(unit_facts, log=None):
             _compound_assignments(fd, log)
             known = inv["functions"].get(fd["file"], {}).get(fd.get("inv_name", fd["name"]))
             _propagate_new_locals(fd, known, log)
+            _thread_result_tests(fd, log)
             _cancel_addr_deref(fd, log)
             _fold_offset_subscripts(fd, log)
             _expand_flag_branches(fd, log)
@@ -504,6 +505,153 @@ def _cancel_addr_deref(fd, log):
                 n += 1
     if n:
         log.add("N9", "%s(): %d `*&x` / `(&s)->m` read as `x` / `s.m`" % (fd["name"], n))
+
+
+# --------------------------------------------------------------------------
+# N11 the test of an inlined helper's result right behind the helper: paths that stored a constant result go straight to
+# the branch that constant selects (jump threading).  `if (!helper (...)) fail;` then looks like the guards it was made of.
+
+def _thread_result_tests(fd, log):
+    exprs = fd["exprs"]
+    rets = set()
+    for e in exprs:
+        if e["k"] == "asg" and e.get("inl_ret") and e.get("c"):
+            r = exprs[e["c"][0]]
+            if r["k"] == "ref":
+                rets.add(r.get("did"))
+    if not rets:
+        return
+    blocks = {b["id"]: b for b in fd["blocks"]}
+    preds = {}
+    for b in fd["blocks"]:
+        for s_ in b["succs"]:
+            if s_ is not None:
+                preds.setdefault(s_, []).append(b["id"])
+
+    def polarity(i):
+        """(did of the tested result temporary, True when the T edge is taken for a non-zero value)."""
+        pos = True
+        k = 0
+        while i is not None and i >= 0 and k < 30:
+            k += 1
+            e = exprs[i]
+            if e["k"] in ("cast", "paren", "opaque") and e.get("c"):
+                i = e["c"][0]
+            elif e["k"] == "call" and e.get("callee") == "__builtin_expect" and e.get("c"):
+                i = e["c"][0]
+            elif e["k"] == "un" and e["op"] == "!":
+                pos = not pos
+                i = e["c"][0]
+            elif e["k"] == "bin" and e["op"] in ("==", "!="):
+                a, b = e["c"]
+                va, vb = _const_of(exprs, a), _const_of(exprs, b)
+                if vb == 0 and va is None:
+                    i = a
+                elif va == 0 and vb is None:
+                    i = b
+                else:
+                    return None
+                if e["op"] == "==":
+                    pos = not pos
+            elif e["k"] == "ref" and e.get("dk") == "local" and e.get("did") in rets:
+                return e["did"], pos
+            else:
+                return None
+        return None
+
+    def subtree(i, acc, depth=0):
+        if i is None or i < 0 or depth > 40 or i in acc:
+            return
+        acc.add(i)
+        for c in exprs[i].get("c") or []:
+            subtree(c, acc, depth + 1)
+
+    def last_store(b, did):
+        """Constant the block's last store to the temporary assigns, 'other' for another store, None for none."""
+        for i in reversed(b["elems"]):
+            e = exprs[i]
+            if e["k"] == "asg" and e.get("c") and exprs[e["c"][0]]["k"] == "ref" and exprs[e["c"][0]].get("did") == did:
+                if e["op"] != "=":
+                    return "other"
+                v = _const_of(exprs, e["c"][1])
+                return v if v is not None else "other"
+            if e["k"] == "decl" and any(v.get("did") == did for v in e.get("vars", [])):
+                return "other"
+        return None
+    n = 0
+    for J in list(fd["blocks"]):
+        t = J.get("term")
+        if not t or "cond" not in t or t.get("kind") not in ("IfStmt", "ConditionalOperator") or len(J["succs"]) != 2 or None in J["succs"]:
+            continue
+        cnode = t["cond"]
+        # the block that evaluates the last operand of `a || b` / `a && b` carries the whole expression as its condition
+        k = 0
+        while cnode is not None and cnode >= 0 and k < 10:
+            k += 1
+            ce = exprs[cnode]
+            if ce["k"] in ("cast", "paren") and ce.get("c"):
+                cnode = ce["c"][0]
+            elif ce["k"] == "call" and ce.get("callee") == "__builtin_expect" and ce.get("c"):
+                cnode = ce["c"][0]
+            elif ce["k"] == "bin" and ce["op"] in ("||", "&&"):
+                right = set()
+                subtree(ce["c"][1], right)
+                if J["elems"] and all(i in right for i in J["elems"]):
+                    cnode = ce["c"][1]
+                else:
+                    break
+            else:
+                break
+        pl = polarity(cnode)
+        if pl is None:
+            continue
+        did, pos = pl
+        own = set()
+        subtree(cnode, own)
+        if any(i not in own for i in J["elems"]):
+            continue
+        T, F = J["succs"]
+        # predecessors, looking through empty pass-through blocks
+        work = [(p, J["id"]) for p in preds.get(J["id"], [])]
+        seen = set()
+        while work:
+            pid, via = work.pop()
+            if (pid, via) in seen or pid == J["id"]:
+                continue
+            seen.add((pid, via))
+            P = blocks[pid]
+            if len(P["succs"]) != 1 or P.get("term", {}).get("cond") is not None:
+                continue
+            v = last_store(P, did)
+            if v is None:
+                if not P["elems"] or all(exprs[i]["k"] not in ("asg", "call", "decl", "un", "ret") for i in P["elems"]):
+                    for pp in preds.get(pid, []):
+                        work.append((pp, pid))
+                continue
+            if v == "other":
+                continue
+            target = T if ((v != 0) == pos) else F
+            if via != J["id"]:
+                # the path runs through empty blocks: they have a single successor chain to J, skip them
+                pass
+            P["succs"] = [target]
+            n += 1
+    if n:
+        log.add("N11", "%s(): %d path(s) with a constant helper result go straight to the branch it selects" % (fd["name"], n))
+
+
+def _const_of(exprs, i):
+    k = 0
+    while i is not None and i >= 0 and k < 10:
+        e = exprs[i]
+        if isinstance(e.get("v"), int):
+            return e["v"]
+        if e["k"] in ("cast", "paren") and e.get("c"):
+            i = e["c"][0]
+        else:
+            return None
+        k += 1
+    return None
 
 
 # --------------------------------------------------------------------------
